@@ -1125,6 +1125,21 @@ func craft(t *rapid.T, N, d *big.Int, h crypto.Hash, msg []byte, frame func([]by
 // RFC 8017 RSAVP1 step 1 and crypto/rsa reject it.
 const keyNotReduced = "C18/verify-equiv/signature-not-below-modulus-accepted"
 
+// equivMsg draws the message of a verifier-equivalence pair: the raw bytes that are signed and verified,
+// independent of any variant's Prepare. 40 %: every length 0..40 (below, at and above the 32-byte prefix
+// of the randomised variants), otherwise vlib.Msg (block-boundary lengths and up to 512 bytes).
+func equivMsg(t *rapid.T, sub string) []byte {
+	if rapid.IntRange(0, 4).Draw(t, "shortMsg") < 2 {
+		m := make([]byte, rapid.IntRange(0, 40).Draw(t, "msgLen"))
+		if len(m) > 0 {
+			vlib.FillRandom(t, m, "msg")
+		}
+		vlib.Class(sub, fmt.Sprintf("msg-len<32:%v", len(m) < 32))
+		return m
+	}
+	return vlib.Msg(t, "msg")
+}
+
 func TestC18VerifierEquiv(t *testing.T) {
 	defer vlib.Done()
 	selftest(t)
@@ -1136,9 +1151,16 @@ func TestC18VerifierEquiv(t *testing.T) {
 			v := rapid.SampledFrom(variants).Draw(t, "variant")
 			sLen, _ := variantParams(v)
 			sub := "verify-equiv/blindrsa"
-			msg := vlib.Msg(t, "msg")
+			msg := equivMsg(t, sub)
 			N := k.key.N
 			kind, m2, sig := craft(t, N, k.key.D, crypto.SHA384, msg, ident, sLen)
+			if rapid.IntRange(0, 9).Draw(t, "stdSigner") == 0 {
+				// a signature made by crypto/rsa itself for exactly these bytes
+				so := &rsa.PSSOptions{SaltLength: sLen, Hash: crypto.SHA384}
+				if s2, err := rsa.SignPSS(vlib.DrawReader(t, "signpss"), k.key, crypto.SHA384, sha384(msg), so); err == nil {
+					kind, m2, sig = "valid(crypto/rsa.SignPSS)", msg, s2
+				}
+			}
 			vlib.Eval(sub)
 			vlib.Class(sub, "craft="+kind)
 			vlib.Class(sub, keyClass(k))
@@ -1146,8 +1168,13 @@ func TestC18VerifierEquiv(t *testing.T) {
 			if err != nil {
 				t.Fatalf("NewVerifier: %v", err)
 			}
-			var cerr error
-			if p, stk := vlib.Catch(func() { cerr = ver.Verify(m2, sig) }); p != nil {
+			client, err := blindrsa.NewClient(v, &k.key.PublicKey)
+			if err != nil {
+				t.Fatalf("NewClient: %v", err)
+			}
+			// every verification entry point of the variant must give the verdict of crypto/rsa
+			var cerr, clerr error
+			if p, stk := vlib.Catch(func() { cerr = ver.Verify(m2, sig); clerr = client.Verify(m2, sig) }); p != nil {
 				vlib.Report(t, "C18/verify-equiv/blindrsa/panic/"+vlib.PanicClass(p), fmt.Sprintf("key=%s variant=%v craft=%s sig=%x: %v\n%s", k.name, v, kind, sig, p, stk))
 				return
 			}
@@ -1177,6 +1204,20 @@ func TestC18VerifierEquiv(t *testing.T) {
 					return
 				}
 			}
+			if (clerr == nil) != (gerr == nil) {
+				cls := "accepts-what-crypto-rsa-rejects"
+				if clerr != nil {
+					cls = "rejects-what-crypto-rsa-accepts"
+				}
+				what := strings.SplitN(kind, ":", 2)[0]
+				key := "C18/verify-equiv/blindrsa/Client.Verify/" + cls + "/" + what
+				if what == "sig+N" && clerr == nil {
+					key = keyNotReduced
+				}
+				if vlib.Report(t, key, fmt.Sprintf("key=%s variant=%v craft=%s msg(%d bytes)=%x sig=%x: Client.Verify err=%v, Verifier.Verify err=%v, crypto/rsa err=%v", k.name, v, kind, len(m2), m2, sig, clerr, cerr, gerr)) {
+					return
+				}
+			}
 			if sLen == 0 && gerr == nil {
 				if _, serr := pss.Verify(N, big.NewInt(int64(k.key.E)), crypto.SHA384, d, sig, 0); serr != nil {
 					vlib.Class(sub, "PSSZERO verifier (like crypto/rsa with SaltLength 0) accepts a salted signature")
@@ -1197,7 +1238,7 @@ func TestC18VerifierEquiv(t *testing.T) {
 			k := drawKey(t, ks, true)
 			h := rapid.SampledFrom(pbHashes(k.bits)).Draw(t, "hash")
 			sub := "verify-equiv/pbrsa"
-			msg := vlib.Msg(t, "msg")
+			msg := equivMsg(t, sub)
 			md := vlib.Bytes(t, 0, 24, "md")
 			if rapid.IntRange(0, 15).Draw(t, "mdEdge") == 0 {
 				md = make([]byte, rapid.SampledFrom(mdEdgeLens).Draw(t, "mdEdgeLen"))
